@@ -1,4 +1,5 @@
 import DigModel.Proofs.ApiLemmas
+import DigModel.Proofs.Shape
 set_option linter.unusedSimpArgs false
 /-
   C20 — Callbacks fire once per execution with the true outcome (container without DryRun).
@@ -88,6 +89,37 @@ theorem C20_deco_cached (ctx : Ctx) (fuel d s : Nat) (st : St) (h : (st.deco d).
 theorem C20_passive (ctx : Ctx) (fns : List Fn) (st : St) (i : Nat) (op : Op) (h : op.isInvoke = false) :
     (step ctx fns st i op).2.ev = [] := step_passive ctx fns st i op h
 
+/-- **nowhere else**: the events reported by any Invoke, from any state, are a sequence of execution blocks
+    (`enter·exit`, `enter·exit·cb`, or — DryRun only — a lone `cb`) of constructor and decorator nodes, followed by
+    the two events of the invoked function if its arguments could be built -/
+theorem C20_trace_shape (ctx : Ctx) (fn : Fn) (st : St) (s : Nat) (info : Bool) (hlog : st.log = []) :
+    ∃ l t, (apiInvoke ctx fn st s info).2.ev = l ++ t ∧ Blocks ctx.cfg.dry l ∧
+      (t = [] ∨ (ctx.cfg.dry = false ∧ ∃ x args r, t = [.enter .invoked fn.id x args, .exit .invoked fn.id x r])) ∧
+      ((apiInvoke ctx fn st s info).2.v = .ok → ctx.cfg.dry = false → t ≠ []) :=
+  apiInvoke_shape ctx fn st s info hlog
+
+/-- hence, without DryRun, every callback event of an Invoke sits directly behind the exit event of an execution
+    of the same node and the same function: no callback without an execution, none detached from it -/
+theorem C20_cb_only_after_exit (ctx : Ctx) (hnd : ctx.cfg.dry = false) (fn : Fn) (st : St) (s : Nat) (info : Bool)
+    (hlog : st.log = []) (i op : Nat) (w : Who) (f : Nat) (err : Option DErr) (rt : Nat)
+    (h : (apiInvoke ctx fn st s info).2.ev[i]? = some (.cb op w f err rt)) :
+    ∃ x r, 0 < i ∧ (apiInvoke ctx fn st s info).2.ev[i - 1]? = some (.exit w f x r) := by
+  obtain ⟨l, t, he, hb, ht, _⟩ := apiInvoke_shape ctx fn st s info hlog
+  rw [hnd] at hb
+  rw [he] at h ⊢
+  by_cases hlt : i < l.length
+  · rw [List.getElem?_append_left hlt] at h
+    obtain ⟨x, r, hpos, hprev⟩ := hb.cb_after_exit i op w f err rt h
+    exact ⟨x, r, hpos, by rw [List.getElem?_append_left (by omega)]; exact hprev⟩
+  · rw [List.getElem?_append_right (by omega)] at h
+    rcases ht with rfl | ⟨_, x, args, r, rfl⟩
+    · simp at h
+    · have : i - l.length = 0 ∨ i - l.length = 1 ∨ 2 ≤ i - l.length := by omega
+      rcases this with e | e | e
+      · rw [e] at h; simp at h
+      · rw [e] at h; simp at h
+      · rw [List.getElem?_eq_none (by simpa using e)] at h; cases h
+
 #print axioms C20_ctor
 #print axioms C20_deco
 #print axioms C20_error_root
@@ -95,4 +127,6 @@ theorem C20_passive (ctx : Ctx) (fns : List Fn) (st : St) (i : Nat) (op : Op) (h
 #print axioms C20_onstack
 #print axioms C20_deco_cached
 #print axioms C20_passive
+#print axioms C20_trace_shape
+#print axioms C20_cb_only_after_exit
 end Dig.C20
